@@ -26,7 +26,8 @@ RULE = (
     'of the delimiter inside a part content, or a real delimiter, straddles a reader chunk edge; or a part is only '
     'partially consumed before the next one is requested; or (limits) the limit is exactly at or one below the actual '
     'size; or (corruptions) the generator predicts the exact result (edit inside one content / preamble / epilogue, '
-    'truncation).  distinct = distinct case fingerprint'
+    'truncation); the Content-Type boundary-parameter list is small and every entry counts.  distinct = distinct case '
+    'fingerprint'
 )
 ASSUMPTIONS = [
     'reference encoder, layout and edit predictions in vf/gen/c13_forms.py share no code with falcon',
@@ -43,6 +44,8 @@ ASSUMPTIONS = [
     'besides falcon.Request / falcon.asgi.Request, forms are parsed through MultipartFormHandler.deserialize[_async] over '
     'directly constructed BufferedReaders with small chunk sizes (as the repo test-suite does) so that chunk edges fall '
     'inside small bodies; the default chunk sizes (32 KiB sync / 8 KiB async) are reached by the big-body suite',
+    'boundaries containing a comma are not generated: falcon answers 415 before the multipart parser runs because media '
+    'type matching splits the Content-Type on the quoted comma (same root cause as known finding F17 of C11)',
     'hang = wall-clock alarm confirmed deterministically by a line-event step budget (vf.stepbudget)',
     'Cython reader twins are not covered (cannot be rebuilt offline); Atheris whole-body fuzzing is not part of this check',
 ]
@@ -679,9 +682,11 @@ class Valid(Suite):
 
 
 class ValidBig(Suite):
-    """Bodies of 8-70 KiB through falcon.Request / falcon.asgi.Request with the default reader chunk sizes: one part
-    is padded so that its closing delimiter starts within a few bytes of a multiple of 8192 / 32768, ASGI events of
-    64-16384 bytes, WSGI short reads."""
+    """Bodies of 8-110 KiB through falcon.Request / falcon.asgi.Request with the default reader chunk sizes: one part
+    is padded so that the hostile tail of its content or its closing delimiter lies across a chunk edge of the readers
+    (multiples of 32768 for the sync reader; for the async reader multiples of the first event-size multiple >= 8192),
+    optionally followed by another 40 KiB (a later part or the epilogue) so that the edge is not the last one; ASGI
+    events of 64-16384 bytes, WSGI short reads."""
 
     name = 'valid_big'
     budget = {'quick': 1600, 'thorough': 20000}
@@ -1002,4 +1007,17 @@ def _known_f13(suite_name, case, violation):
             and 'UnicodeDecodeError' in violation.detail and 'falcon/media/multipart.py' in violation.detail)
 
 
-KNOWN = {'F13': _known_f13}
+def _known_boundary_comma(suite_name, case, violation):
+    # F17 (C11) seen from here: Content-Type: multipart/form-data; boundary="a,b" -> 415 from media handler resolution
+    return (',' in (case.get('form') or {}).get('boundary', '') and violation.kind == 'valid_form_rejected'
+            and 'HTTPUnsupportedMediaType' in violation.detail)
+
+
+def _known_rfc5987_language(suite_name, case, violation):
+    # filename*=UTF-8'en-US'... (hyphenated RFC 5646 language tag) is not recognised as an extended value
+    return (violation.kind == 'part_filename'
+            and any('-' in (p.get('fn_lang') or '') for p in (case.get('form') or {}).get('parts', ())))
+
+
+# predicates are only consulted for ids listed as kind=known in known_findings.jsonl
+KNOWN = {'F13': _known_f13, 'F17b': _known_boundary_comma, 'F22': _known_rfc5987_language}
